@@ -24,9 +24,19 @@ namespace cnl::_impl {
     template<typename Scalar>
     requires integer<Scalar>
     struct to_chars_capacity<Scalar> {
-        [[nodiscard]] constexpr auto operator()(int /*base*/ = 10) const
+        [[nodiscard]] constexpr auto operator()(int base = 10) const
         {
+            CNL_ASSERT(base >= 2);
+
             auto const sign_chars = static_cast<int>(cnl::numbers::signedness_v<Scalar>);
+            if (base < 10) {
+                // 100000 * log(2) / log(base), rounded up, for base 2 to 9
+                constexpr long long digits_per_bit[] = {0, 0, 100000, 63093, 50000, 43068, 38686, 35621, 33334, 31547};
+                auto const integer_chars = static_cast<int>(std::numeric_limits<Scalar>::digits * digits_per_bit[base] / 100000) + 1;
+                return sign_chars + integer_chars;
+            }
+
+            // a number has no more digits in a greater base than it has in base 10
             auto const integer_chars = static_cast<int>(std::numeric_limits<Scalar>::digits * std::numbers::ln2 / std::numbers::ln10) + 1;
             return sign_chars + integer_chars;
         }
